@@ -49,6 +49,12 @@ claim("C16", "exploration", "prod",
       "Held on the executions of the run. MaxMessageBytes is kept below MaxRequestSize (the other order is a misconfiguration outside the statement).",
       "DESIGN.md §7 C16")
 
+claim("C20", "exploration", "mocks",
+      "runtime monitor of the mock producers/consumer: recording ErrorReporter, reference model of the expectation script (sequential walk; porcupine linearizability check for concurrent senders), reference partitioners, consumer yield-order/offset/high-water-mark oracles, race detector",
+      "Enumerated core of minimal scripts plus seeded scripts of 0-200 expectations (success/error/checker pass|fail) x submitted count relative to the script x partitioners x topic configs x 1-4 senders x SendMessages batches; consumer mock with 1-4 partitions and several close orders. Reporter calls must be exactly the deviations of the case.",
+      "Held on the executions of the run. Not demanded: an outcome for a message without expectation; behaviour on a failing partitioner; messages of a SendMessages batch after its first failing expectation.",
+      "DESIGN.md §7 C20")
+
 def main():
     props = [json.loads(l) for l in open(os.path.join(HERE, "properties.jsonl"))]
     ids = [p["id"] for p in props]
